@@ -412,7 +412,7 @@ reg(
     level="exploration",
     technique="runtime monitoring against a reference interpreter: programs over a 3-name alphabet (each name at once caller datum, assigned variable, loop variable, counter and include argument) with a state probe (envdump monitor tag: try_get / get / roots / counter of every name, plus a guarded output read) after every statement; caller-data immutability monitor",
     design_ref="DESIGN.md §5 C04",
-    rule=("cases: all programs with at most N binding statements (quick N = 3: 10423 programs, thorough N = 4: ~3*10^5) over the grammar {assign x, capture x, capture x with a body that prints nothing, increment x, decrement x (x in a,b,c), include 'pa', include 'pa' a: .., include 'pb' b: .., c: .., "
+    rule=("cases: all programs with at most N binding statements (quick N = 3: ~1.6*10^4 programs, thorough N = 4: ~5*10^5) over the grammar {assign x = literal, assign x = x, capture x, capture x with a body that prints nothing, increment x, decrement x (x in a,b,c), include 'pa', include 'pa' a: .., include 'pb' b: .., c: .., "
           "for x in (1..2) {..}, if true {..}} with a probe before, inside and after every construct; a seeded sample of the next two sizes; random programs of up to 14 statements nested to depth 4 with captures containing statements and generated partials, on three data objects. "
           "The whole output trace is compared with the reference interpreter; the data object's strict dump must be unchanged. distinct = distinct (program, partials, data); non-trivial = the program has at least one binding statement."),
     exhaustive=True,
